@@ -1,0 +1,44 @@
+//go:build verif
+
+package ecs
+
+// Contracts for table.go.
+//
+// Data plane: functions that move raw memory (unsafe / reflect) are not verified from their
+// bodies. Their contracts are stated over the ghost content of the entity column
+// (rowEnt: row -> entity stored there) and are trusted by the proofs of their callers.
+
+//@ ghost func rowEnt(t *table) map[uint32]Entity
+
+//@ func (*table).GetEntity
+//@   serves C01 C02 C03 C09
+//@   dataplane
+//@   requires uint64(index) < uint64(t.cap)
+//@   ensures  value: result == rowEnt(t)[uint32(index)]
+//@   modifies nothing
+
+//@ func (*table).Remove
+//@   serves C01 C02 C04 C09 C11
+//@   dataplane
+//@   requires t.len > 0 && index < t.len && t.len <= t.cap
+//@   ensures  len: t.len == old(t.len) - 1 && t.cap == old(t.cap)
+//@   ensures  swapped: result == (index != old(t.len) - 1)
+//@   ensures  moved: result ==> rowEnt(t)[index] == old(rowEnt(t)[t.len-1])
+//@   ensures  others: forall r uint32 :: __trigger(rowEnt(t)[r]) && (r < t.len && r != index ==> rowEnt(t)[r] == old(rowEnt(t)[r]))
+//@   modifies t.len, rowEnt(t)[*], t.entities.pointer, t.entities.data, t.columns[*]
+
+//@ func (*table).Add
+//@   serves C01 C02 C09
+//@   dataplane
+//@   requires t.len < 1<<31 && t.len <= t.cap
+//@   ensures  row: result == old(t.len) && t.len == old(t.len) + 1 && t.len <= t.cap
+//@   ensures  stored: rowEnt(t)[result] == entity
+//@   ensures  others: forall r uint32 :: __trigger(rowEnt(t)[r]) && (r < old(t.len) ==> rowEnt(t)[r] == old(rowEnt(t)[r]))
+//@   modifies t.len, t.cap, rowEnt(t)[*], t.entities.pointer, t.entities.data, t.columns[*]
+
+//@ func (*entityPool).Alive
+//@   serves C02 C10
+//@   dataplane
+//@   requires uint64(e.id) < uint64(len(p.entities)) && poolInv(p)
+//@   ensures  value: result == alive(p, e)
+//@   modifies nothing
